@@ -263,7 +263,7 @@ func corrCodec(prop string, outDir string, seed uint64, tier string, withEdits b
 	var types []codecCase
 	nWild, nClass, nVals := 120, 160, 6
 	if tier == "thorough" {
-		nWild, nClass, nVals = 1500, 2500, 12
+		nWild, nClass, nVals = 800, 1200, 10
 	}
 	for i := 0; i < nWild; i++ {
 		gt := genWild(r)
